@@ -210,6 +210,9 @@ namespace bloch::runtime {
         bool destroyed = false;
         RuntimeEvaluator* owner = nullptr;
         bool marked = false;
+        // Simulator qubits allocated for this object's own qubit fields. Only these are reset
+        // and released when the object dies; a field may later hold a handle owned elsewhere.
+        std::vector<int> ownedQubits;
     };
 
     // Interpreter that walks the AST and simulates quantum bits via
